@@ -101,6 +101,7 @@ class TokenType(Enum):
     PLUS_ASSIGN = auto()  # +=
     MINUS_ASSIGN = auto()  # -=
     STAR_ASSIGN = auto()  # *=
+    STARSTAR_ASSIGN = auto()  # **=
     SLASH_ASSIGN = auto()  # /=
     PERCENT_ASSIGN = auto()  # %=
     AND_ASSIGN = auto()  # &=
